@@ -135,7 +135,7 @@ fn layout_shape_ok(src: &Src, ty: &str) -> Result<(), String> {
     let f = find_method(src, ty, "output_layout_with_checker").ok_or("output_layout_with_checker missing")?;
     let t = sm::tsx(&f.block);
     let (q1, q2, it) = if ty == "UnicodeEscape" { ("'\\''", "'\"'", "forchinsource.chars()") } else { ("b'\\''", "b'\"'", "forchinsource.iter()") };
-    let call = if ty == "UnicodeEscape" { "c=>Self::escaped_char_len(c)," } else { "c=>Self::escaped_char_len(*c)," };
+    let call = if ty == "UnicodeEscape" { "c=>UnicodeEscape::escaped_char_len(c)," } else { "c=>AsciiEscape::escaped_char_len(*c)," };
     let want_match = format!("letincr=matchch{{{}=>{{single_count+=1;1}},{}=>{{double_count+=1;1}},{}}};", q1, q2, call);
     if !t.contains(it) {
         return Err("the layout does not iterate over every source character".into());
@@ -143,10 +143,10 @@ fn layout_shape_ok(src: &Src, ty: &str) -> Result<(), String> {
     if !t.contains(&want_match) {
         return Err("the per-character increment is not `quote => count += 1; 1 | c => escaped_char_len(c)`".into());
     }
-    if !t.contains("let(quote,num_escaped_quotes)=choose_quote(single_count,double_count,preferred_quote);") || !t.contains("matchlength_add(out_len,num_escaped_quotes){Some(out_len)=>EscapeLayout{quote,len:Some(out_len-") {
+    if !t.contains("let(quote,num_escaped_quotes)=choose_quote(single_count,double_count,preferred_quote);") || !t.contains("matchlength_add(out_len,num_escaped_quotes){Some(out_len)=>EscapeLayout{len:Some(out_len-") {
         return Err("the layout does not add num_escaped_quotes from choose_quote(single_count, double_count, preferred_quote)".into());
     }
-    let reserved = if ty == "UnicodeEscape" { "Self::REPR_RESERVED_LEN" } else { "reserved_len" };
+    let reserved = if ty == "UnicodeEscape" { "UnicodeEscape::REPR_RESERVED_LEN" } else { "reserved_len" };
     if !t.contains(&format!("letmutout_len={};", reserved)) || !t.contains(&format!("len:Some(out_len-{}),", reserved)) {
         return Err("the reserved length is not subtracted again from the announced length".into());
     }
@@ -283,7 +283,7 @@ fn quote_choice(cx: &mut Ctx, esc: &Src) {
     }
     // new_repr prefers single quotes
     let t = sm::tsx(&esc.file);
-    if t.matches("pubfnnew_repr(source:&'astr)->Self{Self::with_preferred_quote(source,Quote::Single)}").count() == 1 && t.matches("pubfnnew_repr(source:&'a[u8])->Self{Self::with_preferred_quote(source,Quote::Single)}").count() == 1 {
+    if t.matches("pubfnnew_repr(source:&'astr)->Self{UnicodeEscape::with_preferred_quote(source,Quote::Single)}").count() == 1 && t.matches("pubfnnew_repr(source:&'a[u8])->Self{AsciiEscape::with_preferred_quote(source,Quote::Single)}").count() == 1 {
         cx.ok(rule, "new_repr prefers single quotes for text and bytes");
     } else {
         cx.fail(rule, &format!("{}/new_repr", rule), &esc.rel, "new_repr does not prefer Quote::Single");
@@ -304,7 +304,7 @@ fn fast_path(cx: &mut Ctx, esc: &Src) {
     ];
     // the slow path writes every source character through write_char with the layout's quote (loop or iterator adaptor)
     {
-        let re = regex::Regex::new(r"Self::write_char\(\*?(\w+),self\.layout\(\)\.quote,formatter\)").unwrap();
+        let re = regex::Regex::new(r"(?:Self|UnicodeEscape|AsciiEscape)::write_char\(\*?(\w+),self\.layout\(\)\.quote,formatter\)").unwrap();
         let n = re.find_iter(&t.text).count();
         let iterates = (t.contains("inself.source.chars()") || t.contains("self.source.chars().try_for_each(")) && (t.contains("inself.source.iter()") || t.contains("self.source.iter().try_for_each("));
         if n == 2 && iterates {
